@@ -13,6 +13,7 @@ import struct
 import subprocess
 import sys
 import time
+import threading
 from concurrent.futures import ThreadPoolExecutor
 
 ROOT = os.path.dirname(os.path.dirname(os.path.abspath(__file__)))
@@ -336,7 +337,16 @@ VIEWS = {"full": view_full, "values": view_values, "flags": view_flags, "shape":
          "meta": view_meta, "log": view_log, "none": view_none, "update": view_update}
 
 
+SHAPE_TALLY = {}
+SHAPE_LOCK = threading.Lock()
+
+
 def split_spec(line):
+    if " @@ shape=" in line:
+        # the model's verdict on the hypothesis `ShapeOK` of the path-sum theorem in the state before this pass
+        line, cls = line.rsplit(" @@ shape=", 1)
+        with SHAPE_LOCK:
+            SHAPE_TALLY[cls] = SHAPE_TALLY.get(cls, 0) + 1
     if " ## " in line:
         m, s = line.split(" ## ", 1)
         return m, s
@@ -752,6 +762,11 @@ def write_evidence(pid, tier, seed, cfg, theorems, declared, proof_ok, corr, sam
             "rule": "per family: " + "; ".join("%s: %s" % (k, v.get("rule", "")) for k, v in corr.items()),
             "traces_validated_against_impl": sum(s["cases"] for s in corr.values()),
             "correspondence": corr,
+            # the model's own verdict, in the state before every executed pass, on the hypothesis `ShapeOK` of
+            # C01_pathsum_of_stored_closures (decided by `shapeOKb`, proved sound in ShapeCheckSound): "ok" = the
+            # theorem applies to that pass; otherwise why not (harness-defined closure, rank-1 matmul operand,
+            # array without dimensions); "other" would mean the operations leave shapes `TagShape` does not describe
+            "pathsum_hypothesis_checked_before_each_pass": dict(sorted(SHAPE_TALLY.items())),
             "samples": samples if samples else [{"note": "no correspondence family ran"}],
             "exhaustive": False,
         },
